@@ -18,8 +18,12 @@ from vlib.cty import *
 from . import common, C06
 
 PROP = "C18"
-UT = [U8, U16, U32, U64, U128]
-ST = [I8, I16, I32, I64]
+# unsigned long long / long long are 64-bit types distinct from std::(u)int64_t (= (unsigned) long on LP64) and have their
+# own explicit specialisations in bit.h: every fundamental type with its own specialisation is a separate instance
+ULL = CT("unsigned long long", 64, False, 5, "ull")
+LL = CT("long long", 64, True, 5, "ll")
+UT = [U8, U16, U32, U64, ULL, U128]
+ST = [I8, I16, I32, I64, LL]
 
 
 def std_refs(fn, T):
@@ -62,7 +66,7 @@ def gen_eq():
                                        ["return std::%s(x, (int)(s %% %du));" % (fn, T.bits)], cfg=cfg, meta=dict(fn=fn, T=T.short)))
                 obs.append(kern.Ob("%s/countr_used/%s" % (cfg, T.short), "int", [(T.name, "x")], "return cnl::countr_used(x);", ["return %d - std::countl_zero(x);" % T.bits], cfg=cfg, meta=dict(fn="countr_used", T=T.short)))
         for T in ST:
-            U = {I8: U8, I16: U16, I32: U32, I64: U64}[T]
+            U = {I8: U8, I16: U16, I32: U32, I64: U64, LL: ULL}[T]
             obs.append(kern.Ob("%s/countl_rsb/%s" % (cfg, T.short), "int", [(T.name, "x")], "return cnl::countl_rsb(x);",
                                ["return std::countl_zero((%s)(x < 0 ? ~x : x)) - 1;" % U.name, "return (x < 0 ? std::countl_one((%s)x) : std::countl_zero((%s)x)) - 1;" % (U.name, U.name),
                                 "return std::countl_zero((%s)(x ^ (x >> %d))) - 1;" % (U.name, T.bits - 1)], cfg=cfg, meta=dict(fn="countl_rsb", T=T.short)))
